@@ -17,7 +17,7 @@ pub enum Case {
     Field { m: String, op: String, a: String, b: String },
     /// raw 256/512-bit helpers
     Raw { op: String, a: String, b: String },
-    /// P = [k1]G in representation Z = l1 (l1 = 0: infinity with X = Y = k1), same for Q
+    /// P = [k1]G in representation Z = l1 (l1 = 0: infinity (k1^2, k1^3, 0)), same for Q
     Add { k1: String, l1: String, k2: String, l2: String },
     /// unary point operations and predicates on [k]G with Z = l
     Unary { k: String, l: String },
@@ -38,9 +38,10 @@ fn modulus(m: &str) -> BigUint {
 
 fn rep_point(k: &BigUint, l: &BigUint) -> (Point, Pt) {
     if l.is_zero() {
-        // infinity: Z = 0 with arbitrary X, Y
-        let v = to_mont(&(k % &sm2::params().p));
-        (Point { x: v, y: v, z: [0; 4] }, None)
+        // infinity in Jacobian coordinates is (t^2, t^3, 0) with t != 0; here t = k
+        let p = &sm2::params().p;
+        let t = if (k % p).is_zero() { BigUint::one() } else { k % p };
+        (Point { x: to_mont(&((&t * &t) % p)), y: to_mont(&((&t * &t * &t) % p)), z: [0; 4] }, None)
     } else {
         let pt = sm2::g_mul(k);
         (lib_point(&pt, l), pt)
@@ -461,7 +462,7 @@ pub fn run(ctx: &Arc<Ctx>) {
             reps.push((j.clone(), l.clone()));
         }
     }
-    for x in [BigUint::one(), BigUint::zero(), g.below(&p)] {
+    for x in [BigUint::one(), BigUint::from(2u32), g.nonzero_below(&p)] {
         reps.push((x, BigUint::zero()));
     }
     for (k1, l1) in &reps {
